@@ -164,7 +164,7 @@ class World:
             aps = t.EmberApsFrame(profileId=260, clusterId=6, sourceEndpoint=1, destinationEndpoint=1, options=0, groupId=0, sequence=1)
             if self.version >= 14:
                 status = t.sl_Status.OK if ok == "1" else t.sl_Status.ZIGBEE_DELIVERY_FAILED
-                args = [status, t.EmberOutgoingMessageType.OUTGOING_DIRECT, t.EmberNodeId(dst), aps, t.uint8_t(tag), b"x"]
+                args = [status, t.EmberOutgoingMessageType.OUTGOING_DIRECT, t.EmberNodeId(dst), aps, t.uint16_t(tag), b"x"]
             else:
                 status = t.EmberStatus.SUCCESS if ok == "1" else t.EmberStatus.DELIVERY_FAILED
                 args = [t.EmberOutgoingMessageType.OUTGOING_DIRECT, t.EmberNodeId(dst), aps, t.uint8_t(tag), status, b"x"]
@@ -264,7 +264,8 @@ def run_script(rng, version, seq0, script):
                 if tag is None:
                     tag = 200
                 if which == "tag":
-                    tag = (tag + 7) % 256
+                    # (protocol version 14 carries 16-bit tags: there the foreign tag shares its low byte with the own one)
+                    tag = (tag + 7) % 256 if w.version < 14 else tag + 0x3200
                 elif which == "dst":
                     dst = dst ^ 0x0100
                 ev = f"F={dst}={tag}={ok}"
@@ -539,7 +540,7 @@ def run(ctx):
                     tag = w.tag_of.get(rr, 200)
                     dst = next((d for d, q in w.req_of_dst.items() if q == rr), 0)
                     if which == "tag":
-                        tag = (tag + 7) % 256
+                        tag = (tag + 7) % 256 if w.version < 14 else tag + 0x3200
                     elif which == "dst":
                         dst = dst ^ 0x0100
                     ev = f"F={dst}={tag}={ok}"
